@@ -237,7 +237,7 @@ def lattice(tier):
 
 def run(ctx):
     cells = lattice(ctx.tier)
-    cap = 60000 if ctx.tier == "quick" else 1500000
+    cap = int(os.environ.get("VERIF_C13_CAP", 0)) or (60000 if ctx.tier == "quick" else 1500000)
     order = list(range(len(cells)))
     # the seed only permutes the work order; the explored set is identical
     k = ctx.seed % max(1, len(order))
@@ -256,6 +256,10 @@ def run(ctx):
             execs += res["executions"]
             if not res["complete"]:
                 incomplete.append(res["cell"])
+            if res.get("wall", 0) > 60 or not res["complete"]:
+                ctx.log("cell %s: %d executions, %d states, %.0f s%s" % (
+                    res["cell"], res["executions"], res["states"], res.get("wall", 0),
+                    "" if res["complete"] else "  (CAPPED)"))
             key = json.dumps(res["cell"][:2])
             outcome_sets.setdefault(key, set()).update(res["outcomes"])
             distinct_outcomes.update(res["outcomes"])
